@@ -194,6 +194,10 @@ func (tr TranslationConfig) translatePackage(pkg *packages.Package) (coq.File, e
 			"could not load package %v:\n%v", pkg.PkgPath,
 			pkgErrors(pkg.Errors))
 	}
+	if ffis := ffisUsed(pkg); len(ffis) > 1 {
+		return coq.File{}, errors.Errorf(
+			"package %v uses more than one FFI: %v", pkg.PkgPath, ffis)
+	}
 	ctx := NewPkgCtx(pkg, tr)
 	files := sortedFiles(pkg.CompiledGoFiles, pkg.Syntax)
 
